@@ -51,10 +51,11 @@ package lfs
 // (The two @def clauses define decodes_ok / err_isdecode: they are assumed at
 // call sites and not obligations of the body.)
 //@ func decodeKV
-//@   props C01 C08 C07
+//@   props C01 C08 C07 C04
 //@   modifies fresh
 //@   ensures @def (result1 == nil) == decodes_ok(bytesOf(data))
-//@   ensures @def result1 != nil ==> err_isdecode(result1) && !err_cleanptr(result1)
+//@   ensures @def result1 != nil ==> err_isdecode(result1) && !err_cleanptr(result1) && !err_notexist(result1)
+//@   ensures @def result1 == nil ==> result0.Oid == ptr_oid(bytesOf(data))
 //@   ensures result1 == nil ==> result0 != nil && isfresh(result0)
 //@   ensures result1 != nil ==> result0 == nil
 //@   ensures @C07 result1 == nil ==> isoid(result0.Oid) && result0.Size >= 0
@@ -63,13 +64,15 @@ package lfs
 // DecodeFrom loses nothing of the stream, and decides "pointer or not" on the
 // whole input when it is shorter than 1024 bytes - however it is chunked.
 //@ func DecodeFrom
-//@   props C01 C08 C07
+//@   props C01 C08 C07 C04
 //@   requires @inv reader != nil
 //@   modifies fresh, ghost rrest[reader]
 //@   ensures result1 != nil && isfresh(vref(result1)) && rrest(result1) == old(rrest(reader))
 //@   ensures reads_ok(reader) ==> reads_ok(result1) && (result2 == nil || err_isdecode(result2))
 //@   ensures result2 == nil || err_isdecode(result2) ==> rrest(reader) == bsub(old(rrest(reader)), chunk(result1), len(old(rrest(reader))))
 //@   ensures !err_cleanptr(result2)
+//@   ensures @C04 len(old(rrest(reader))) > 0 && len(old(rrest(reader))) < 1024 && result2 == nil ==> result0 != nil && result0.Oid == ptr_oid(str_trim(old(rrest(reader))))
+//@   ensures @C04 reads_ok(reader) ==> !err_notexist(result2)
 //@   ensures @C07 result2 == nil && len(old(rrest(reader))) > 0 && len(old(rrest(reader))) < 1024 && result0.Size != 0 ==> result0.Canonical == (penc(result0) == old(rrest(reader)))
 //@   ensures result2 == nil || err_isdecode(result2) ==> has_chunk(result1)
 //@   ensures len(old(rrest(reader))) < 1024 && (result2 == nil || err_isdecode(result2)) ==> chunk(result1) == len(old(rrest(reader)))
@@ -153,3 +156,13 @@ package lfs
 //@   props C07
 //@   pure
 //@   ensures result == (p[i].Priority < p[j].Priority)
+
+// C04: what DecodePointerFromFile concludes about a working-tree file.  A nil
+// error means the whole file (shorter than 1024 bytes) is pointer text for the
+// returned id, or the file is empty; a not-exist error means there is no file.
+//@ func DecodePointerFromFile
+//@   props C04
+//@   modifies fresh
+//@   ensures result1 == nil ==> result0 != nil && fexists(file) && len(fdata(file)) < 1024
+//@   ensures result1 == nil && len(fdata(file)) > 0 ==> decodes_ok(str_trim(fdata(file))) && result0.Oid == ptr_oid(str_trim(fdata(file)))
+//@   ensures err_notexist(result1) ==> !fexists(file)
